@@ -1,6 +1,7 @@
 package interpreter
 
 import (
+	"math/big"
 	"slices"
 
 	"github.com/formancehq/numscript/internal/parser"
@@ -100,7 +101,9 @@ func (st *programState) runBalancesQuery() error {
 		})
 		for asset, amount := range accountBalances {
 			if _, alreadyCached := cachedAccountBalances[asset]; !alreadyCached && amount != nil {
-				cachedAccountBalances[asset] = amount
+				// copy the number: the cache is updated in place by the statements,
+				// and the store's own data must not be written to
+				cachedAccountBalances[asset] = new(big.Int).Set(amount)
 			}
 		}
 	}
